@@ -1,7 +1,8 @@
 import XjsModel.Model.Builder
 import XjsModel.Props.TableObligations
+import XjsModel.Proofs.ParserRenProg
 /-
-  C05 — Custom operators and token types integrate consistently (registration bookkeeping part).
+  C05 — Custom operators and token types integrate consistently.
 
   Quantifier: ALL histories of `RegisterTokenType` / `Register{Prefix,Infix,Postfix}Operator` calls on one builder
   (any length, any repeats, any token ids and levels).
@@ -13,9 +14,18 @@ import XjsModel.Props.TableObligations
     * operators: a registration whose (role, token) is already present — seeded built-in or registered earlier —
       is refused and leaves the builder exactly as it was; a fresh one is accepted, recorded once, and touches
       nothing else; the per-role operator lists never hold a token twice.
-  The grouping clause (a registered infix operator groups like a built-in of its level) is the C02/C03 round trip
-  for the extended table; see Props/C03.lean. The seeds of the duplicate bookkeeping are tied to /repo by the
-  regenerated table obligations.
+  GROUPING (`parsing_commutes_with_renaming`, one pass `Ren.ren_mutual` over the parser's mutual block): the parser
+  looks at an operator token's type only through its three tables. For ANY configuration and ANY map `f` of token types
+  that moves only operator-like types and preserves the table entries (binding power, prefix role, infix role), parsing
+  commutes with `f`: on every token list the parse of the renamed list is the renamed parse — same shape, same errors.
+  Instance (`registered_infix_groups_like_builtin`): in the configuration a builder produces after
+  `RegisterInfixOperator(tok, p)`, `p` one of the six binary levels, the registered token can be replaced everywhere
+  by the built-in operator of that level (`||` `&&` `==` `<` `+` `*`): it groups — relative to every built-in operator,
+  in every context, on valid and malformed input alike — exactly as that left-associative built-in does.
+  Postfix operators (registered at CALL level, where no built-in operator lives) and several registered operators at
+  once are instances of the general theorem too, but only the single-infix instance is spelled out; those cases are
+  decided by the BUILD/PARSE correspondence and the grouping oracle. The seeds of the duplicate bookkeeping are tied to
+  /repo by the regenerated table obligations.
 -/
 namespace Xjs.C05
 open Xjs
@@ -279,6 +289,33 @@ example : (run [.tokenType [112, 111, 119], .tokenType [112, 105], .tokenType [1
     .inf (.dyn 1000) 3, .inf .plus 5]).dynTokens = [([112, 111, 119], 1000), ([112, 105], 1001)] := by decide
 example : (run [.inf (.dyn 1000) 9, .inf (.dyn 1000) 3, .inf .plus 5]).infixOps = [(.dyn 1000, 9)] := by decide
 
+/-- GROUPING, general form: parsing commutes with every renaming of operator token types that preserves the table
+    entries — the parser cannot tell a registered operator from a built-in one of the same level and role -/
+theorem parsing_commutes_with_renaming (cfg : PCfg) (ρ : Ren.Renaming cfg) (toks : List Token) (r : ParseResult)
+    (h : parseProgram cfg toks = some r) :
+    parseProgram cfg (toks.map (Ren.tokR ρ)) =
+      some { prog := Ren.stmtListR ρ r.prog, errors := r.errors, hasErr := r.hasErr, final := Ren.psR ρ r.final } :=
+  Ren.ren_parseProgram ρ toks r h
+
+/-- GROUPING, instance: after `RegisterInfixOperator(dyn n, p)` on a fresh builder (accepted, configuration `cfgInfix`),
+    replacing the registered token by the built-in operator of level `p` commutes with parsing, in all four modes -/
+theorem registered_infix_groups_like_builtin (n p : Nat) (b : TokType) (hb : Ren.levelOp p = some b) (tolerant smart : Bool)
+    (toks : List Token) (r : ParseResult) (h : parseProgram (Ren.cfgInfix n p tolerant smart) toks = some r) :
+    (Builder.new.registerInfix (.dyn n) p).1 = true ∧
+    (Builder.new.registerInfix (.dyn n) p).2.config = Ren.cfgInfix n p false false ∧
+    ∃ ρ : Ren.Renaming (Ren.cfgInfix n p tolerant smart), ρ.f = Ren.swap n b ∧
+      parseProgram (Ren.cfgInfix n p tolerant smart) (toks.map (Ren.tokR ρ)) =
+        some { prog := Ren.stmtListR ρ r.prog, errors := r.errors, hasErr := r.hasErr, final := Ren.psR ρ r.final } := by
+  obtain ⟨ρ, hρ⟩ := Ren.infixRenaming n p b hb tolerant smart
+  exact ⟨(Ren.cfgInfix_is_builder n p).1, (Ren.cfgInfix_is_builder n p).2, ρ, hρ, Ren.ren_parseProgram ρ toks r h⟩
+
+/-- the six levels and their built-in representatives really are binary operators of that level without a prefix role -/
+example : ∀ p b, Ren.levelOp p = some b → lookup basePrecedences b = some p ∧ lookup baseInfixFns b = some .binary ∧
+    lookup basePrefixFns b = none := by
+  intro p b h
+  unfold Ren.levelOp at h
+  split at h <;> first | (cases h; decide) | cases h
+
 end Xjs.C05
 
 #print axioms Xjs.C05.inv_run
@@ -290,3 +327,5 @@ end Xjs.C05
 #print axioms Xjs.C05.duplicate_postfix_refused
 #print axioms Xjs.C05.accepted_then_refused
 #print axioms Xjs.C05.builtins_are_seeded
+#print axioms Xjs.C05.parsing_commutes_with_renaming
+#print axioms Xjs.C05.registered_infix_groups_like_builtin
